@@ -20,6 +20,7 @@ def dispatch (line : String) : String :=
     | "batch" => Drivers.Run.handleBatch args
     | "incr" => Drivers.Run.handleIncr args
     | "follow" => Drivers.Reader.handleFollow args
+    | "followd" => Drivers.Reader.handleFollowDelivered args
     | "lines" => Drivers.Reader.handleLines true args
     | "linecount" => Drivers.Reader.handleLines false args
     | "joinlines" => Drivers.Reader.handleJoin args
